@@ -112,19 +112,44 @@ def goctyGoRes (r : Res GoVal) : String := resTag (fun g => toString (valToSexp 
 def goctyTyRes (r : Res Ty) : String := resTag (fun t => toString t.toSexp) r
 def goctyValRes (r : Res Value) : String := resTag (fun v => toString v.toSexp) r
 
+/-- attribute names rotated so that the `k`-th comes first -/
+def rotate (k : Nat) (l : List String) : List String :=
+  l.drop (k % max l.length 1) ++ l.take (k % max l.length 1)
+
+/-- the schedule that, at nesting depth `d`, starts with attribute number `ks[d]` -/
+def rotSched (ks : List Nat) : Sched := fun d names => rotate (ks.getD d 0) names
+
+/-- every choice of a first attribute (of up to 6) at nesting depths 0..2 -/
+def schedVectors : List (List Nat) :=
+  (List.range 6).flatMap fun a => (List.range 6).flatMap fun b => (List.range 6).map fun c => [a, b, c]
+
 def handleGocty : Handler := fun op args =>
   match op, args with
   | "gocty.fromnum", [x, t] => do
     let x ← Num.ofSexp x; let t ← tyOfSexp t
-    pure (goctyGoRes (fromCty ⟨.number, .n x⟩ t))
+    pure (goctyGoRes (fromCtyS idSched ⟨.number, .n x⟩ t))
   | "gocty.implied", [t] => do
     pure (goctyTyRes (impliedType id (← tyOfSexp t)))
   | "gocty.bridge", [t] => do
     pure (goctyTyRes (bridgeType id (← tyOfSexp t)))
+  | "gocty.implied", [t, tab] => do
+    pure (goctyTyRes (impliedType (← normOfSexp tab) (← tyOfSexp t)))
+  | "gocty.bridge", [t, tab] => do
+    pure (goctyTyRes (bridgeType (← normOfSexp tab) (← tyOfSexp t)))
   | "gocty.tocty", [g, ty, tab] => do
     let g ← valOfSexp g; let ty ← Ty.ofSexp ty; let norm ← normOfSexp tab
     pure (if ty.hasOpt then "unmodelled" else goctyValRes (toCty norm g ty))
   | "gocty.fromcty", [v, t] => do
     let v ← Value.ofSexp v; let t ← tyOfSexp t
-    pure (goctyGoRes (fromCty v t))
+    pure (goctyGoRes (fromCtyS idSched v t))
+  | "gocty.fromcty", [v, t, .atom seen] => do
+    -- `seen` is what the implementation answered ("err" / "panic"): which failing attribute Go's map
+    -- order met first is not observable, so the answer is accepted iff SOME schedule produces it
+    let v ← Value.ofSexp v; let t ← tyOfSexp t
+    let r0 := goctyGoRes (fromCtyS idSched v t)
+    if r0 == seen || (r0 != "err" && r0 != "panic") then pure r0
+    else
+      match schedVectors.find? (fun ks => goctyGoRes (fromCtyS (rotSched ks) v t) == seen) with
+      | some _ => pure seen
+      | none => pure r0
   | _, _ => none
